@@ -69,6 +69,7 @@ static void mutexLock(pthread_mutex_t* m)
 		st = &mutexes[m];
 	}
 	st->owner = self->id;
+	hbSyncObj(m, true, false);
 }
 static int mutexUnlock(pthread_mutex_t* m)
 {
@@ -78,6 +79,7 @@ static int mutexUnlock(pthread_mutex_t* m)
 		fail("sync_protocol", "unlock_not_owner", "pthread_mutex_unlock by thread %d, owner %d", self->id, st.owner);
 		return EPERM;
 	}
+	hbSyncObj(m, false, true);
 	st.owner = -1;
 	wakeAll(BK_MUTEX, m);
 	return 0;
@@ -126,6 +128,7 @@ int __wrap_pthread_join(pthread_t th, void** ret)
 		}
 		if (t->st == SThread::FINISHED)
 		{
+			hbJoin(t);
 			if (ret)
 				*ret = t->ret;
 			event("thread_join t%d", t->id);
@@ -411,6 +414,7 @@ int __wrap_sem_post(sem_t* s)
 		return __real_sem_post(s);
 	sp();
 	RtScope r;
+	hbSyncObj(s, false, true);
 	sems[s].count++;
 	wakeAll(BK_SEM, s);
 	return 0;
@@ -428,6 +432,7 @@ static int semWait(sem_t* s, int64_t realDeadline)
 			if (st.count > 0)
 			{
 				st.count--;
+				hbSyncObj(s, true, false);
 				break;
 			}
 			int64_t dl = -1;
